@@ -297,6 +297,10 @@ func (ck *Checker) runPath(st *instState, sol *Solver, prefix []Decision) (newWo
 	for _, v := range r.viol {
 		if fv, ok := st.viols[v.Key]; ok {
 			fv.count++
+			if fv.count >= 200 && st.stopped == "" && len(in.Expect) == 0 {
+				// the same violation on 200 paths: more of them add nothing (12 alternates are kept for the replay)
+				st.stopped = "violation budget"
+			}
 			if len(fv.alts) < 12 {
 				fv.alts = append(fv.alts, v)
 			}
